@@ -486,8 +486,8 @@ class ExcelCompiler:
             # set the value
             cell_or_range.value = value
 
-    def _reset(self, cell):
-        if cell.needs_calc:
+    def _reset(self, cell, unread_range=False):
+        if cell.needs_calc and not unread_range:
             return
         self.log.info(f"Resetting {cell.address}")
         cell.value = None
@@ -496,6 +496,10 @@ class ExcelCompiler:
             for child_cell in self.dep_graph.successors(cell):
                 if child_cell.value is not None:
                     self._reset(child_cell)
+                elif isinstance(child_cell, _CellRange):
+                    # a range which a formula refers to without reading it
+                    # (eg: an intersection) has no value, the formula has
+                    self._reset(child_cell, unread_range=True)
 
     def value_tree_str(self, address, indent=0):
         iterative_eval_tracker.inc_iteration_number()
